@@ -366,10 +366,33 @@ def anonymise(rng, d):
     return d
 
 
-def gen_corpus(rng, n, pbad=0.25, pgraph=0.15, names=NAMES):
+def gen_adapter_call(rng, names=NAMES):
+    """A call of one of the pool adapters (adapt_numpylike_reduce / adapt_numpylike_elementwise), or None."""
+    name = rng.choice(["red_sum_scale", "red_max", "el_axpy", "el_mul"])
+    if name.startswith("red"):
+        d = gen_call(rng, "reduce", names)
+        d["op"] = "adapt:" + name
+        if "->" in d["desc"] and "[" not in d["desc"]:
+            return None
+        d["kw"].pop("keepdims", None)
+        if name == "red_sum_scale" and rng.random() < 0.7:
+            d["kw"]["scale"] = rng.choice([1, 2, 3, -1, -2, 0.0, -0.0, -1.0])
+    else:
+        d = gen_call(rng, "elem", names)
+        d["op"] = "adapt:" + name
+        d["tensors"] = d["tensors"][:2]
+        d["desc"] = ", ".join(d["desc"].split(" -> ")[0].split(", ")[:2]) + ((" -> " + d["desc"].split(" -> ")[1]) if " -> " in d["desc"] else "")
+        if name == "el_axpy" and rng.random() < 0.7:
+            d["kw"]["alpha"] = rng.choice([1, 2, 3, -1, -2, 0.0, -0.0, -2.0])
+    return d
+
+
+def gen_corpus(rng, n, pbad=0.25, pgraph=0.15, names=NAMES, padapt=0.06):
     out = []
     while len(out) < n:
-        c = gen_call(rng, names=names)
+        c = gen_adapter_call(rng, names) if rng.random() < padapt else gen_call(rng, names=names)
+        if c is None:
+            continue
         if c.get("_axes") and rng.random() < 0.35:  # redundant (consistent) size keywords
             for n2 in rng.sample(sorted(c["_axes"]), min(len(c["_axes"]), rng.randint(1, 3))):
                 c["kw"].setdefault(n2, c["_axes"][n2])
